@@ -451,7 +451,8 @@ def main(argv=None):
     all_fail = {}
     for r in results:
         if 'error' in r:
-            harness_errors.append('lane %s shard %s: %s' % (r['lane'], r['shard'], r['error']))
+            tb = [ln.strip() for ln in r['error'].strip().splitlines() if ln.strip()]
+            harness_errors.append('lane %s shard %s: %s || %s' % (r['lane'], r['shard'], ' | '.join(tb[-7:]), r['error']))
             continue
         s = r['stats']
         pl = per_lane.setdefault(r['lane'], {'evaluations': 0, 'nontrivial': 0, 'wall_max': 0.0})
